@@ -65,6 +65,8 @@ pub struct RunResult {
     /// the same run with every served response written out explicitly (no PRNG left in it)
     pub materialised: RunSpec,
     pub log: Vec<String>,
+    /// interleaved-tasks mode: fingerprint of the interleaving that was executed (who ran at each scheduling point)
+    pub interleaving: Option<u64>,
 }
 
 /// hex of at most the first 32 bytes
@@ -80,7 +82,7 @@ fn bump(c: &mut Counters, k: &'static str) {
     *c.entry(k).or_insert(0) += 1;
 }
 
-fn guarded<T>(f: impl FnOnce() -> T) -> Result<T, PanicClass> {
+pub(crate) fn guarded<T>(f: impl FnOnce() -> T) -> Result<T, PanicClass> {
     IN_SIM.with(|c| c.set(true));
     LAST_PANIC.with(|p| *p.borrow_mut() = None);
     let r = catch_unwind(AssertUnwindSafe(f));
@@ -201,6 +203,9 @@ fn plan_of_event(e: &Event, original: Option<&Plan>) -> Plan {
 }
 
 pub fn run(spec: &RunSpec, ty: &dyn TyObj, want_log: bool) -> RunResult {
+    if !spec.tasks.is_empty() {
+        return crate::tasks::run_tasks(spec, want_log);
+    }
     let mut rng = SimRng::new(spec.fresh_seed, spec.infallible);
     rng.err_code = spec.err_code;
     let mut viol: Vec<Violation> = Vec::new();
@@ -287,10 +292,12 @@ pub fn run(spec: &RunSpec, ty: &dyn TyObj, want_log: bool) -> RunResult {
                 let mut hit_end = false;
                 let mut steps = 0u32;
                 let mut aborted = false;
+                let mut op_draws = 0u64;
                 while steps < *max_steps + 2 * MARGIN {
                     steps += 1;
                     calls_total += 1;
                     let plan = [Plan::Fixed(w.clone())];
+                    rng.forget_events();
                     let st = rng.begin_call_vol(&plan, width);
                     let r = match *via {
                         0 => guarded(|| ty.gen_range(low, high, *inclusive, &mut rng, op.dynamic)),
@@ -309,6 +316,13 @@ pub fn run(spec: &RunSpec, ty: &dyn TyObj, want_log: bool) -> RunResult {
                         }
                     }
                     *counters.entry("draw_requests").or_insert(0) += evs.len() as u64;
+                    op_draws += evs.len() as u64;
+                    if op_draws > 64 * steps as u64 + 4096 {
+                        // fewer than one word in 64 accepted: nothing to walk along (and unaffordable)
+                        bump(&mut counters, "fibre_walk_abandoned_low_acceptance");
+                        aborted = true;
+                        break;
+                    }
                     let Ok(v) = r else {
                         aborted = true;
                         break;
@@ -427,13 +441,25 @@ pub fn run(spec: &RunSpec, ty: &dyn TyObj, want_log: bool) -> RunResult {
                 let zero = vec![0u8; width];
                 let mut aborted = false;
                 let mut probes = 0u64;
+                let mut op_draws = 0u64;
+                let section = Cell::new("start");
                 // one call with `w` as its only planned word: Some(value) if accepted at once, None if rejected
                 let mut probe = |w: &[u8], viol: &mut Vec<Violation>, aborted: &mut bool| -> Option<Vec<u8>> {
                     if *aborted {
                         return None;
                     }
                     probes += 1;
+                    if probes > 400_000 {
+                        // no measurement needs this many calls: the answers are inconsistent from call to call
+                        bump(&mut counters, "span_probe_abandoned_inconsistent");
+                        *aborted = true;
+                        return None;
+                    }
+                    if probes % 200_000 == 0 && std::env::var("VERIF_DEBUG").is_ok() {
+                        eprintln!("span probe [{}]: {} probes so far, op_draws {}, run {} type {} low {} high {}", section.get(), probes, op_draws, spec.run, spec.ty, hex(low), hex(high));
+                    }
                     let plan = [Plan::Fixed(w.to_vec())];
+                    rng.forget_events();
                     let st = rng.begin_call_vol(&plan, width);
                     let r = match *via {
                         0 => guarded(|| ty.gen_range(low, high, *inclusive, &mut rng, op.dynamic)),
@@ -452,6 +478,12 @@ pub fn run(spec: &RunSpec, ty: &dyn TyObj, want_log: bool) -> RunResult {
                         }
                     }
                     *counters.entry("draw_requests").or_insert(0) += evs.len() as u64;
+                    op_draws += evs.len() as u64;
+                    if op_draws > 64 * probes + 4096 {
+                        bump(&mut counters, "span_probe_abandoned_low_acceptance");
+                        *aborted = true;
+                        return None;
+                    }
                     let Ok(v) = r else {
                         *aborted = true;
                         return None;
@@ -500,6 +532,7 @@ pub fn run(spec: &RunSpec, ty: &dyn TyObj, want_log: bool) -> RunResult {
                         continue;
                     }
                     let span = refint::add_small(&refint::sub(&bm, &a_hint), 1); // >= 1 (0 means 2^W)
+                    section.set("seed");
                     // a word that maps to x
                     let mid = refint::midpoint(&a_hint, &bm);
                     let mut seed = None;
@@ -516,6 +549,7 @@ pub fn run(spec: &RunSpec, ty: &dyn TyObj, want_log: bool) -> RunResult {
                         inapplicable += 1;
                         continue;
                     };
+                    section.set("lower");
                     // lower end: bisect between a word that is not x (one span below the hint) and the seed
                     let l0 = if !refint::is_zero(&span) && refint::ucmp(&a_hint, &span) != O::Less { refint::sub(&a_hint, &span) } else { zero.clone() };
                     let a_x = if probe(&l0, &mut viol, &mut aborted).as_ref() == Some(&x) {
@@ -527,7 +561,7 @@ pub fn run(spec: &RunSpec, ty: &dyn TyObj, want_log: bool) -> RunResult {
                         }
                     } else {
                         let (mut lo, mut hi) = (l0, s0.clone());
-                        while refint::ucmp(&refint::add_small(&lo, 1), &hi) == O::Less && !aborted {
+                        while refint::ucmp(&lo, &hi) == O::Less && refint::ucmp(&refint::add_small(&lo, 1), &hi) == O::Less && !aborted {
                             let m = refint::midpoint(&lo, &hi);
                             if probe(&m, &mut viol, &mut aborted).as_ref() == Some(&x) {
                                 hi = m;
@@ -537,6 +571,7 @@ pub fn run(spec: &RunSpec, ty: &dyn TyObj, want_log: bool) -> RunResult {
                         }
                         hi
                     };
+                    section.set("upper");
                     // upper end
                     let room = refint::sub(&maxw, &bm);
                     let u0 = if !refint::is_zero(&span) && refint::ucmp(&room, &span) != O::Less { refint::add(&bm, &span) } else { maxw.clone() };
@@ -549,7 +584,7 @@ pub fn run(spec: &RunSpec, ty: &dyn TyObj, want_log: bool) -> RunResult {
                         }
                     } else {
                         let (mut lo, mut hi) = (s0.clone(), u0);
-                        while refint::ucmp(&refint::add_small(&lo, 1), &hi) == O::Less && !aborted {
+                        while refint::ucmp(&lo, &hi) == O::Less && refint::ucmp(&refint::add_small(&lo, 1), &hi) == O::Less && !aborted {
                             let m = refint::midpoint(&lo, &hi);
                             if probe(&m, &mut viol, &mut aborted).as_ref() == Some(&x) {
                                 lo = m;
@@ -562,6 +597,7 @@ pub fn run(spec: &RunSpec, ty: &dyn TyObj, want_log: bool) -> RunResult {
                     if aborted {
                         break;
                     }
+                    section.set("verify");
                     // local verification of both ends, and the neighbours must be the adjacent values
                     let mut ok = true;
                     if !refint::is_zero(&a_x) {
@@ -602,6 +638,7 @@ pub fn run(spec: &RunSpec, ty: &dyn TyObj, want_log: bool) -> RunResult {
                             }
                         }
                     }
+                    section.set("exterior");
                     // Exterior: no word outside the block may map to x, and accepted words below / above the block must
                     // map to values below / above x. Checked exhaustively for 48 words on each side (catches local
                     // reorderings of words, e.g. a word permuted by XOR with a small constant before the multiply) and
@@ -657,6 +694,7 @@ pub fn run(spec: &RunSpec, ty: &dyn TyObj, want_log: bool) -> RunResult {
                             }
                         }
                     }
+                    section.set("interior");
                     // interior: every sampled word of [a_x, e_x] must be accepted at once and map to x
                     // Deterministically the first and last 48 words of the block, then 12 seeded interior words each
                     // together with its successor: a sampler whose consecutive words map to different values (low-bit
@@ -732,6 +770,96 @@ pub fn run(spec: &RunSpec, ty: &dyn TyObj, want_log: bool) -> RunResult {
                             ["gen_range", "sample_single", "Uniform::sample"][*via as usize % 3], hex(low), hex(&high_incl), hex(&mn.1), hex(&mn.4), hex(&mn.2), hex(&mn.3), hex(&mx.1), hex(&mx.4), hex(&mx.2), hex(&mx.3)
                         ),
                     });
+                }
+            }
+            OpKind::Census { low, high, inclusive, via, samples } => {
+                let high_incl = if *inclusive { high.clone() } else { refint::add_small(high, -1) };
+                bump(&mut counters, "op_census");
+                nontrivial = true;
+                let sampler = if *via == 2 {
+                    match guarded(|| ty.uniform(low, high, *inclusive, crate::types::Ctor::Val)) {
+                        Ok(s) => Some(s),
+                        Err(pc) => {
+                            viol.push(Violation { class: "panic", op: oi, call: 0, detail: format!("constructing the sampler for [{} , {}] panicked: {:?}", hex(low), hex(high), pc) });
+                            continue;
+                        }
+                    }
+                } else {
+                    None
+                };
+                let Some(r) = refint::range_size(low, &high_incl).and_then(|r| refint::to_u64(&r)) else { continue };
+                if r == 0 || r > 256 || (*samples as u64) < 64 * r {
+                    continue; // the bounds below are calibrated for a mean of at least 64 per value
+                }
+                let mut counts: BTreeMap<Vec<u8>, u64> = BTreeMap::new();
+                let mut aborted = false;
+                let mut census_draws = 0u64;
+                for ci in 0..*samples as usize {
+                    calls_total += 1;
+                    rng.forget_events();
+                    let st = rng.begin_call_vol(&[], width);
+                    let res = match *via {
+                        0 => guarded(|| ty.gen_range(low, high, *inclusive, &mut rng, op.dynamic)),
+                        1 => guarded(|| ty.sample_single(low, high, *inclusive, false, &mut rng, op.dynamic)),
+                        _ => {
+                            let s = sampler.as_ref().unwrap();
+                            guarded(|| s.sample(&mut rng, op.dynamic))
+                        }
+                    };
+                    let evs = &rng.events[st..];
+                    let _ = check_panic(&res, evs, oi, ci, &mut viol, &mut counters);
+                    *counters.entry("draw_requests").or_insert(0) += evs.len() as u64;
+                    let Ok(v) = res else {
+                        aborted = true;
+                        break;
+                    };
+                    if v.len() != width || !refint::in_range(signed, low, &high_incl, &v) {
+                        viol.push(Violation { class: "membership", op: oi, call: ci, detail: format!("census: returned {} outside [{}, {}]; RNG words: [{}]", hex(&v), hex(low), hex(&high_incl), evs.iter().filter_map(|e| if let Resp::Ok(b) = &e.resp { Some(hex(b)) } else { None }).collect::<Vec<_>>().join(" ")) });
+                        aborted = true;
+                        break;
+                    }
+                    fp.b(&v);
+                    *counts.entry(v).or_insert(0) += 1;
+                    census_draws += evs.len() as u64;
+                    if census_draws > 64 * *samples as u64 + 4096 {
+                        // fewer than one word in 64 accepted: not what this oracle is about (and unaffordable)
+                        bump(&mut counters, "census_abandoned_low_acceptance");
+                        aborted = true;
+                        break;
+                    }
+                }
+                states.insert(state_tuple(type_tag, 9, op.shape, r, 0, 1, if aborted { 6 } else { 1 }));
+                if aborted {
+                    continue;
+                }
+                // Every value's count is Binomial(samples, 1/r) for ANY sampler with equal preimage counts fed with
+                // independent uniform words (rejected words are simply redrawn). With mean m = samples / r >= 64:
+                // P(count < m/8) < 1e-18 and P(count > 3m + 8) < 1e-30 (Chernoff), per value.
+                let mean = *samples as u64 / r;
+                let (lo_b, hi_b) = (mean / 8, 3 * mean + 8);
+                let mut worst: Option<(Vec<u8>, u64)> = None;
+                for k in 0..r {
+                    let x = refint::add(low, &refint::from_u64(k, width));
+                    let c = counts.get(&x).copied().unwrap_or(0);
+                    if c < lo_b || c > hi_b {
+                        worst = Some((x, c));
+                        break;
+                    }
+                }
+                if want_log {
+                    log.push(format!("op {} census over {} value(s), {} calls: counts min {} max {}", oi, r, samples, (0..r).map(|k| counts.get(&refint::add(low, &refint::from_u64(k, width))).copied().unwrap_or(0)).min().unwrap_or(0), counts.values().max().copied().unwrap_or(0)));
+                }
+                match worst {
+                    Some((x, c)) => viol.push(Violation {
+                        class: "value_frequency",
+                        op: oi,
+                        call: 0,
+                        detail: format!(
+                            "{} on [{}, {}] ({} values): over {} calls on fresh independent uniform words value {} was returned {} times (mean for equal preimage counts: {}; a count outside [{}, {}] has probability < 1e-17 for any such sampler) — values are not equally likely, so they cannot have equally many accepted words",
+                            ["gen_range", "sample_single", "Uniform::sample"][*via as usize % 3], hex(low), hex(&high_incl), r, samples, hex(&x), c, mean, lo_b, hi_b
+                        ),
+                    }),
+                    None => bump(&mut counters, "probe_census_all_values_seen"),
                 }
             }
             OpKind::Gen => {
@@ -1027,13 +1155,14 @@ pub fn run(spec: &RunSpec, ty: &dyn TyObj, want_log: bool) -> RunResult {
         states,
         nontrivial,
         calls: calls_total,
-        draws: rng.events.len() as u64,
+        draws: rng.events_total,
         materialised: mat,
         log,
+        interleaving: None,
     }
 }
 
-fn outcome_class<T>(r: &Result<T, PanicClass>) -> u64 {
+pub(crate) fn outcome_class<T>(r: &Result<T, PanicClass>) -> u64 {
     match r {
         Ok(_) => 1,
         Err(PanicClass::Injected) => 3,
@@ -1060,7 +1189,7 @@ fn state_tuple(ty: u64, kind: u64, shape: u8, q: u64, fault: u64, attempts: usiz
 }
 
 /// R2: classify a panic; returns the fault kind that fired in this call (0 none, 1 err, 2 partial, 3 panic, 4 stall)
-fn check_panic<T>(r: &Result<T, PanicClass>, evs: &[Event], oi: usize, ci: usize, viol: &mut Vec<Violation>, counters: &mut Counters) -> u64 {
+pub(crate) fn check_panic<T>(r: &Result<T, PanicClass>, evs: &[Event], oi: usize, ci: usize, viol: &mut Vec<Violation>, counters: &mut Counters) -> u64 {
     let mut fault = 0u64;
     for e in evs {
         match (&e.resp, e.src) {
@@ -1148,11 +1277,22 @@ pub fn take_last_panic() -> String {
 /// is the spec well-formed for this type (operand widths, non-empty ranges)? Used by the minimiser so
 /// that a candidate never trips rand's own "empty range" assertion.
 pub fn valid(spec: &RunSpec, ty: &dyn TyObj) -> bool {
+    if !spec.tasks.is_empty() {
+        let menu = crate::types::global_menu();
+        return spec.tasks.iter().all(|t| match crate::types::by_name(menu, &t.ty) {
+            Some(tt) => valid_ops(&t.ops, tt),
+            None => false,
+        });
+    }
+    valid_ops(&spec.ops, ty)
+}
+
+fn valid_ops(ops: &[Op], ty: &dyn TyObj) -> bool {
     use std::cmp::Ordering::*;
     let w = ty.bytes();
-    for op in &spec.ops {
+    for op in ops {
         match &op.kind {
-            OpKind::GenRange { low, high, inclusive } | OpKind::Single { low, high, inclusive, .. } | OpKind::Uniform { low, high, inclusive, .. } | OpKind::FibreWalk { low, high, inclusive, .. } | OpKind::SpanProbe { low, high, inclusive, .. } => {
+            OpKind::GenRange { low, high, inclusive } | OpKind::Single { low, high, inclusive, .. } | OpKind::Uniform { low, high, inclusive, .. } | OpKind::FibreWalk { low, high, inclusive, .. } | OpKind::SpanProbe { low, high, inclusive, .. } | OpKind::Census { low, high, inclusive, .. } => {
                 if low.len() != w || high.len() != w {
                     return false;
                 }
